@@ -18,7 +18,7 @@ ID = "C01"
 LEVEL = "exploration"
 ENGINE = "simio"
 TIERS = {
-    "quick": {"runs": 3500, "budget_s": 70, "chunk": 8},
+    "quick": {"runs": 3000, "budget_s": 70, "chunk": 8},
     "thorough": {"runs": 60000, "budget_s": 1500, "chunk": 16},
 }
 RULE = ("one evaluation = one seeded object graph (swarm: random subset of value kinds, size regime "
